@@ -69,6 +69,19 @@ def rule_r1(p, res):
             raise AnalysisError("C18.R1: cannot resolve exported feature %s" % nm)
     if n < 11:
         raise AnalysisError("C18.R1: only %d exported features found (floor 11)" % n)
+    # the three normalisers are one feature with three scale functions: same calling convention
+    sib = {}
+    for nm in ("normalize_norm", "normalize_std", "normalize_var"):
+        x = p.resolve_name(m, nm)
+        if isinstance(x, FuncInfo):
+            sib[nm] = tuple(d.split(".")[-1] for d in x.decorators() if d.split(".")[-1] in DECOS)
+    need(len(sib) == 3, "C18.R1: the normalize_norm / normalize_std / normalize_var siblings were not found")
+    vals = list(sib.values())
+    odd = [k_ for k_, v_ in sib.items() if vals.count(v_) == 1 and len(set(vals)) > 1]
+    fx = p.resolve_name(m, odd[0]) if odd else None
+    r.check(len(set(vals)) == 1, fx if fx is not None else "menpo.feature.features", fx.node if fx is not None else "normalizers", "%s is wrapped by %s while its siblings are wrapped by %s: on a masked "
+            "image it then works on another set of pixels than on the bare array, so array and image calls disagree" % (odd[0] if odd else "?", sib.get(odd[0]) if odd else "?", [v_ for v_ in vals if vals.count(v_) > 1][:1]),
+            {"normalizer_wrappers": {k_: list(v_) for k_, v_ in sib.items()}})
     # the wrappers
     for deco in DECOS:
         f = p.func(FB + deco)
@@ -358,4 +371,8 @@ WITNESSES = [
     Witness("C18.W8", "menpo/feature/base.py", "rebuild_feature_image", "mask = image.mask.resize(f_pixels.shape[1:])", "mask = image.mask.copy()", rule="C18.R2", construct="rebuild_feature_image"),
     Witness("C18.W10", "menpo/feature/features.py", "normalize", "zero_denom = (scale_factor == 0).ravel()", "zero_denom = np.isclose(scale_factor, 0).ravel()", rule="C18.R4", construct="normalize", note="seeded change R2-C18-B"),
     Witness("C18.T1", "menpo/feature/features.py", "no_op", "return pixels.copy()", "out = pixels.copy()\n    return out", kind="T"),
+]
+
+WITNESSES += [
+    Witness("C18.W11", "menpo/feature/features.py", "normalize_var", "@ndfeature", "@imgfeature", rule="C18.R1", construct="normalize_var", note="seeded change R4-C18-B"),
 ]
